@@ -21,9 +21,30 @@ type InstCase struct {
 
 const widenPrefix = "\tJNE zzwide\n\tRESB 200\nzzwide:\n"
 
+// context: what is written before and after the statement under test.
+//
+//	widen    header; an out-of-reach Jcc (second assembly round); statement
+//	twin     the same statement text first under the other mode, then under the mode under test
+//	         (anything remembered per operand text or per statement text must also know the mode)
+//	prebits  no directive at all (default mode); out-of-reach Jcc; statement; [BITS 32]; MOV EAX,1
+//	         (the second assembly round must start again in the default mode)
+func (c InstCase) context() (pre, post, directives string) {
+	switch c.Ctx {
+	case "widen":
+		return sem.Header(c.Mode) + widenPrefix, "", sem.Header(c.Mode)
+	case "twin":
+		m := sem.ModeOf(c.Mode)
+		return bitsDirective(48-m) + "\t" + c.St.Render() + "\n" + bitsDirective(m), "", bitsDirective(48-m) + bitsDirective(m)
+	case "prebits":
+		return widenPrefix, "[BITS 32]\n\tMOV EAX,1\n", "[BITS 32]\n"
+	}
+	return sem.Header(c.Mode), "", sem.Header(c.Mode)
+}
+
 func (c InstCase) Source() string {
-	if c.Ctx == "widen" {
-		return sem.Header(c.Mode) + widenPrefix + "\t" + c.St.Render() + "\n"
+	if c.Ctx != "" {
+		pre, post, _ := c.context()
+		return pre + "\t" + c.St.Render() + "\n" + post
 	}
 	return sem.Header(c.Mode) + c.St.Render() + "\n"
 }
@@ -71,7 +92,8 @@ func checkC01(c InstCase) Verdict { return checkInst("C01", c) }
 func checkInst(pid string, c InstCase) Verdict {
 	mode := sem.ModeOf(c.Mode)
 	r := asm.Assemble(c.Source())
-	base := asm.Baseline(sem.Header(c.Mode))
+	_, _, dirs := c.context()
+	base := asm.Baseline(dirs)
 	v := Verdict{Class: c.Cls, Key: fmt.Sprintf("%d|%s|%s", c.Mode, c.Ctx, c.St.Render())}
 	if asm.Diagnosed(r, base) {
 		v.Skip = "diagnosed"
@@ -80,16 +102,28 @@ func checkInst(pid string, c InstCase) Verdict {
 		}
 		return v
 	}
-	if c.Ctx == "widen" {
-		// strip the bytes of the prefix (assembled alone, cached)
-		pre := asm.Baseline(sem.Header(c.Mode) + widenPrefix)
-		if len(pre.Out) == 0 || len(r.Out) < len(pre.Out) || string(r.Out[:len(pre.Out)]) != string(pre.Out) {
-			v.Fail = fmt.Sprintf("%q after a widened branch: the bytes of the branch and its reservation changed (% x ...)", c.St.Render(), head(r.Out, 8))
-			v.Sig = pid + "|ctx-prefix"
+	if c.Ctx != "" {
+		// strip the bytes of what surrounds the statement (each assembled alone)
+		preSrc, postSrc, _ := c.context()
+		pre := asm.Assemble(preSrc)
+		var post *asm.Result
+		if postSrc != "" {
+			post = asm.Assemble(postSrc)
+		} else {
+			post = &asm.Result{}
+		}
+		if asm.Diagnosed(pre, base) || asm.Diagnosed(post, base) || len(pre.Out) == 0 {
+			v.Skip = "context alone diagnosed"
 			return v
 		}
-		r.Out = r.Out[len(pre.Out):]
-		st.Classes["ctx:widen"]++
+		n, k := len(pre.Out), len(post.Out)
+		if len(r.Out) < n+k || string(r.Out[:n]) != string(pre.Out) || string(r.Out[len(r.Out)-k:]) != string(post.Out) {
+			v.Fail = fmt.Sprintf("%q in context %q: the bytes of the surrounding statements changed: % x, alone they are % x ... % x\n--- source ---\n%s", c.St.Render(), c.Ctx, r.Out, pre.Out, post.Out, c.Source())
+			v.Sig = pid + "|ctx-prefix|" + c.Ctx
+			return v
+		}
+		r.Out = r.Out[n : len(r.Out)-k]
+		st.Classes["ctx:"+c.Ctx]++
 	}
 	var m *sem.Mismatch
 	if len(c.St.Ops) == 0 && c.St.Mn != "RET" {
@@ -105,11 +139,27 @@ func checkInst(pid string, c InstCase) Verdict {
 	if m != nil {
 		v.Fail = fmt.Sprintf("%q (BITS %d) assembled silently to % x — %s", c.St.Render(), mode, r.Out, m)
 		v.Sig = fmt.Sprintf(pid+"|cls=%s|mode=%d|kind=%s|st=%s|out=%x", c.Cls, mode, m.Kind, c.St.Render(), r.Out)
+		if c.Ctx != "" {
+			v.Fail += "\n--- source ---\n" + c.Source()
+		}
 		return v
 	}
 	v.NonTrivial = len(r.Out) > 0
 	v.Sample = map[string]any{"mode": mode, "stmt": c.St.Render(), "bytes": fmt.Sprintf("% x", r.Out)}
 	return v
+}
+
+// drawCtx: one case in six behind a widened branch, one in ten as a twin, default-mode cases one in ten as prebits.
+func drawCtx(t *rapid.T, mode int) string {
+	switch k := rapid.IntRange(0, 29).Draw(t, "ctx"); {
+	case k < 5:
+		return "widen"
+	case k < 8 && mode != 0:
+		return "twin"
+	case k < 8:
+		return "prebits"
+	}
+	return ""
 }
 
 func allInstForms() []form {
@@ -122,7 +172,7 @@ func allInstForms() []form {
 
 var propC01 = &Prop[InstCase]{
 	ID:   "C01",
-	Rule: "one instruction statement (catalogue form x registers x boundary/uniform immediates) under BITS none/16/32; non-trivial = accepted without diagnostic and non-empty output; distinct by (mode setting, rendered statement)",
+	Rule: "one instruction statement (catalogue form x registers x boundary/uniform immediates) under BITS none/16/32, alone or in a context (behind an out-of-reach Jcc = second assembly round; as the twin of the same text under the other mode; before the first directive of a program that later switches to 32 bits); non-trivial = accepted without diagnostic and non-empty output; distinct by (mode setting, rendered statement)",
 	Gen: func(t *rapid.T) InstCase {
 		fs := allInstForms()
 		// stratify: 1/8 of the cases are no-operand mnemonics
@@ -137,9 +187,7 @@ var propC01 = &Prop[InstCase]{
 		_ = fs
 		mode := rapid.SampledFrom([]int{0, 16, 32}).Draw(t, "mode")
 		ic := InstCase{Mode: mode, St: drawForm(t, f), Cls: f.Class}
-		if rapid.IntRange(0, 5).Draw(t, "ctx") == 0 {
-			ic.Ctx = "widen"
-		}
+		ic.Ctx = drawCtx(t, mode)
 		return ic
 	},
 	Check: checkC01,
